@@ -33,6 +33,11 @@ _NO_KERNEL = ("NOT_IMPLEMENTED", "Could not find an implementation", "is invalid
 _KERNEL_DEVIATIONS = {
     "sum_dim": lambda a, k: any(d == 0 for d in a[0]["shape"]),   # ReduceSum on an empty tensor with unsorted axes
 }
+# Reduce* / ArgMax kernels of onnxruntime on a tensor without elements return the input unreduced for some axes / keepdims
+# combinations (and a following Squeeze then fails): the model (operator document) agrees with torch eager there
+for _n in ("all_dim", "any_dim", "all_dims", "any_dims", "all", "any", "prod", "prod_dim_int", "logsumexp", "argmax", "argmin",
+           "var_correction", "std_correction", "var_mean_correction", "var_dim"):
+    _KERNEL_DEVIATIONS[_n] = lambda a, k: any(d == 0 for d in a[0]["shape"])
 
 
 def _iota(shape, dtype="int64"):
@@ -119,6 +124,11 @@ def _finding_class(fam, a, k, want, got_desc):
     """Specific class of a failing input (part of the finding key)."""
     from harness.c08_fams import numel
     n = fam.name
+    if getattr(fam, "finding", None) is not None:             # third group: the family names its own failing classes
+        c = fam.finding(a, k, want, got_desc)
+        if c:
+            return c
+        return "other:" + got_desc.split()[0]
     if n == "roll":
         sh = a[0]["shape"]
         dims = a[2] if len(a) > 2 else []
@@ -181,7 +191,9 @@ def families(ctx):
     mods_ = {"core": core, "nn": nn}
 
     fams = c08_fams.build()
-    cases, meta = {1: [], 2: []}, []
+    if os.environ.get("C08_ONLY"):                            # development aid: only the named families (never set by ./check)
+        fams = [f for f in fams if f.name in os.environ["C08_ONLY"].split(",")]
+    cases, meta = {1: [], 2: [], 3: []}, []
     stats = {}
     for fam in fams:
         n = fam.quick if ctx.tier == "quick" else fam.thorough
@@ -226,12 +238,14 @@ def families(ctx):
             if fam.chk == 2:
                 call = call.replace("{FIXED}", "true" if _is_fixed(fam.name, sk, args) else "false")
                 obs, wres = {"RErr": "R2Err", "RNone": "R2None"}.get(obs, obs), {"RErr": "R2Err", "RNone": "R2None"}.get(wres, wres)
+            if fam.chk == 3:
+                obs, wres = {"RErr": "R3Err", "RNone": "R3None"}.get(obs, obs), {"RErr": "R3Err", "RNone": "R3None"}.get(wres, wres)
             ctx.case((fam.name,) + tuple(fam.cls(args, kwargs)))
             fixed = _is_fixed(fam.name, sk, args)
             if fam.chk == 1:
                 cases[1].append(f"({'true' if fixed else 'false'}, {call}, {_skel_lit(sk)}, {obs}, {wres})")
             else:
-                cases[2].append(f"({call}, {_skel_lit(sk)}, {obs}, {wres})")
+                cases[fam.chk].append(f"({call}, {_skel_lit(sk)}, {obs}, {wres})")
             meta.append((fam, args, kwargs, desc, err, want, got, sk, (fam.chk, len(cases[fam.chk]) - 1)))
             if len(ctx.samples) < 4 and fam.name in ("flatten", "roll", "slice", "narrow") and not desc:
                 ctx.sample({"family": fam.name, "args": args, "kwargs": kwargs, "skeleton": sk,
@@ -240,14 +254,15 @@ def families(ctx):
     # ---- the model, inside Coq
     shard = 400
     bodies, where = [], []
-    for chk, ty, fn_ in ((1, "case", "disagreeing"), (2, "case2", "disagreeing2")):
+    for chk, ty, fn_ in ((1, "case", "disagreeing"), (2, "case2", "disagreeing2"), (3, "case3", "disagreeing3")):
         for i in range(0, len(cases[chk]), shard):
             bodies.append("Local Open Scope string_scope.\nLocal Open Scope Z_scope.\n"
                           f"Definition cases : list {ty} := [\n" + ";\n".join(cases[chk][i:i + shard]) + "].\n"
                           f"Eval vm_compute in ({fn_} cases).")
             where.append((chk, i))
     verdict_at = {}
-    res = _coq_shards(ctx, ["OV.Torch.Onnx", "OV.Torch.Aten", "OV.Torch.Check", "OV.Torch.Spec2", "OV.Torch.Aten2", "OV.Torch.Check2"], bodies)
+    res = _coq_shards(ctx, ["OV.Torch.Onnx", "OV.Torch.Aten", "OV.Torch.Check", "OV.Torch.Spec2", "OV.Torch.Aten2", "OV.Torch.Check2",
+                           "OV.Torch.Spec3", "OV.Torch.Aten3", "OV.Torch.Check3"], bodies)
     model_ok = True
     for si, (ok, vals, raw) in enumerate(res):
         if not ok or not vals:
@@ -313,17 +328,28 @@ def families(ctx):
 def direct_witnesses(ctx):
     from harness import c08_exec as X
     torch = X.mods()["torch"]
-    from onnxscript.function_libs.torch_lib.ops import core
+    from onnxscript.function_libs.torch_lib.ops import core, nn
+    A = torch.ops.aten
     inf = float("inf")
-    W = [("aten_diagonal", [{"t": "float32", "shape": [2, 2], "data": [1.0, inf, 3.0, 4.0]}, 0, 0, 1], {},
+    up = {"t": "float32", "shape": [1, 1, 25], "data": [float(v % 7) for v in range(25)]}
+    up2 = {"t": "float32", "shape": [1, 1, 25, 25], "data": [float(v % 7) for v in range(625)]}
+    W = [("aten_upsample_nearest1d", [{"t": "float32", "shape": [1, 1, 4], "data": [1.0, 2.0, 3.0, 4.0]}, [7], 2.0], {},
+          lambda x, o, s: A.upsample_nearest1d(x, o, s), "output-size-ignored-when-scales-given", nn),
+         ("aten_upsample_nearestnd_vec", [up, None, [1.16]], {}, lambda x, o, s: A.upsample_nearest1d.vec(x, o, s), "scale-factor-float32-rounding", nn),
+         ("aten_upsample_bilinear2d_vec", [up2, None, False, [1.16, 2.12]], {}, lambda x, o, a, s: A.upsample_bilinear2d.vec(x, o, a, s),
+          "scale-factor-float32-rounding", nn),
+         ("aten_scatter_reduce", [{"t": "float32", "shape": [3], "data": [1.0, 2.0, 3.0]}, 0, {"t": "int64", "shape": [2], "data": [0, 0]},
+                                  {"t": "float32", "shape": [2], "data": [10.0, 20.0]}, "mean"], {"include_self": True},
+          lambda x, d, i, s, r, include_self: torch.scatter_reduce(x, d, i, s, r, include_self=include_self), "reduce-mean", core),
+         ("aten_diagonal", [{"t": "float32", "shape": [2, 2], "data": [1.0, inf, 3.0, 4.0]}, 0, 0, 1], {},
           lambda x, o, a, b: torch.diagonal(x, o, a, b), "non-finite-off-diagonal-element"),
          ("aten_diagonal", [{"t": "float32", "shape": [2, 3], "data": [1.0, 2.0, 3.0, float("nan"), 5.0, 6.0]}, 1, 0, 1], {},
           lambda x, o, a, b: torch.diagonal(x, o, a, b), "non-finite-off-diagonal-element")]
-    for fname, args, kwargs, ref, cls in W:
+    for fname, args, kwargs, ref, cls, *mod in W:
         targs = X.to_torch(args)
         want = _np(ref(*targs, **kwargs))
         try:
-            tr = X.trace(getattr(core, fname), targs, kwargs)
+            tr = X.trace(getattr(mod[0] if mod else core, fname), targs, kwargs)
             got = X.run_ort(tr)[0]
             desc = _same(got, want)
         except Exception as e:
@@ -338,7 +364,7 @@ def direct_witnesses(ctx):
 def _coq_shards(ctx, requires, bodies, par=2, timeout=900):
     """Like ctx.coq_eval_shards (whose scratch-file naming breaks on the '-' of the scratch directory)."""
     from concurrent.futures import ThreadPoolExecutor
-    hdr = "From Coq Require Import List ZArith String Bool.\nImport ListNotations.\n"
+    hdr = "From Coq Require Import List ZArith String Bool QArith.\nImport ListNotations.\n"
     hdr += "".join(f"Require Import {r}.\n" for r in requires)
     hdr += "Set Printing Width 1000000.\nSet Printing Depth 1000000.\n"
     files = []
@@ -482,10 +508,18 @@ def run(ctx):
     ctx.assume("PyTorch semantics are transcribed from ATen's shape functions into coq/Torch/Spec.v; torch eager is the oracle on every case")
     ctx.assume("data-moving operators are modelled along the operated axis (a tensor is the list of its slabs along that axis); "
                "numeric kernels (MatMul, softmax, normalisations, float rounding) are outside the model")
+    ctx.assume("third group: ReduceMin / ReduceMax over an empty set yield the extreme value of INT64, Reduce* / ArgMax / ScatterElements / Conv / "
+               "ConvTranspose shape and attribute rules as in the operator documents (coq/Torch/Onnx3.v); var / std are compared over the "
+               "rationals with IEEE division by zero, the observed float32 output must lie within 2e-4 relative + 1e-5 of the model's value")
     ctx.trust("onnxruntime 1.30 CPU (ORT_DISABLE_ALL) and torch 2.14 eager as oracles; torch.onnx exporter OpRecorder for tracing")
+    if os.environ.get("C08_ONLY"):
+        ctx.check_props(extra_files=["Torch/Check.v", "Torch/Check2.v", "Torch/Check3.v"])
+        families(ctx)
+        ctx.tie_broken("harness", "development-run", "C08_ONLY is set: the sweep and the other families were skipped")
+        return
     sw = sweep_start(ctx)                    # runs beside the proof re-check and the modelled families
     try:
-        ctx.check_props(extra_files=["Torch/Check.v", "Torch/Check2.v"])      # the correspondence checkers are (re)built with the theorems
+        ctx.check_props(extra_files=["Torch/Check.v", "Torch/Check2.v", "Torch/Check3.v"])      # the correspondence checkers are (re)built with the theorems
         families(ctx)
         direct_witnesses(ctx)
     finally:
@@ -495,7 +529,12 @@ def run(ctx):
         "multi-axis roll/flip as one statement (proved per axis; multi-axis cases: skeleton + direct oracle)",
         "squeeze (no dim) and split_with_sizes: model + correspondence + direct oracle, no theorem beyond the operator transcription",
         "float and complex paths of the modelled functions; dtype promotion rules (e.g. clamp of an int tensor with a float bound, sum of int32)",
-        "registered overloads outside the 36 modelled functions: exploration-grade sweep over the repository's OpInfo table only",
+        "third group (reductions, scatter, convolution): values of all.dims / any.dims over several dims, argmax tie-breaking, scatter values, "
+        "convolution values, var / std rounding are direct-oracle only; transposed convolution with output_padding >= stride (legal in PyTorch "
+        "when < dilation) is not generated (onnxruntime's ConvTranspose refuses it); logsumexp with dim = [] on rank >= 1 (torch eager raises)",
+        "Reduce* / ArgMax on tensors without elements: onnxruntime returns the input unreduced for some axes / keepdims combinations; cases "
+        "where the model equals torch eager there are counted as runtime deviations, not findings",
+        "registered overloads outside the ~70 modelled functions: exploration-grade sweep over the repository's OpInfo table only",
         "torch.onnx.export(dynamo=True): 8 fixed small modules only (exploration)"])
     if ctx.tier == "thorough":
         ctx.coqchk(["Props.C08"])
